@@ -337,7 +337,7 @@ impl<T: Payload> World<T> {
             Op::CycleSlot { x, k, n, .. } => m.is_live(*x) && fresh(k) && *n >= 1,
             Op::TreeMacro { shape, root, kbase, .. } => {
                 let cnt = crate::treemacro::shape_nodes(*shape) + if root.is_none() { 1 } else { 0 };
-                root.map_or(true, |r| m.is_live(r)) && (0..cnt as u32).all(|i| fresh(&(kbase + i)))
+                root.map_or(true, |r| m.known(r)) && (0..cnt as u32).all(|i| fresh(&(kbase + i)))
             }
             Op::RestartClone | Op::RestartSerde { .. } | Op::Clear | Op::CloneFrom => self.frozen.is_none(),
             Op::SaveSpare | Op::ObsCapacity { .. } => true,
